@@ -20,7 +20,8 @@ class CannotEvaluate(Exception):
 
 
 class Conc:
-    def __init__(self, U, q, ev=None):
+    def __init__(self, U, q, ev=None, dec=False):
+        self.dec = dec      # decimal back-end: products / quotients round to 18 fractional digits and panic on overflow
         self.U = U
         self.q = q
         self.ev = ev or T.Evaluator(U, keep_tags=False)
@@ -53,6 +54,11 @@ class Conc:
             return None
         if h in ("array", "tuple"):
             return [self.eval(x, params) for x in t[1]]
+        if h == "field":
+            v = self.eval(t[1], params)
+            if isinstance(v, (list, tuple)) and isinstance(t[2], int) and 0 <= t[2] < len(v):
+                return v[t[2]]
+            raise CannotEvaluate("field " + T.show(t))
         if h == "some":
             return ("some", self.eval(t[1], params))
         if h == "const":
@@ -88,7 +94,14 @@ class Conc:
             b = self.eval(t[2], params)
             if h == "/" and b == 0:
                 raise ModelPanic("division by zero")
-            return {"+": a + b, "-": a - b, "*": a * b, "/": a / b if h == "/" else None}[h]
+            r = {"+": a + b, "-": a - b, "*": a * b, "/": a / b if h == "/" else None}[h]
+            if self.dec and isinstance(r, Fraction):
+                from .magn import THRESH, round18
+                if abs(r) >= THRESH:
+                    raise ModelPanic("decimal overflow: %s = %.3g is not representable (fpdec panics with 'Internal representation exceeded')" % (T.show(t)[:80], float(r)))
+                if h in ("*", "/"):
+                    r = round18(r)
+            return r
         if h == "neg":
             return -self.eval(t[1], params)
         if h == "cast":
@@ -124,6 +137,8 @@ class Conc:
             if not isinstance(xs, list):
                 raise CannotEvaluate("slice iteration over a non-constant")
             return xs
+        if name == ITER + "map":
+            return [self.call(args[1], [x], params) for x in self.eval(args[0], params)]
         if name == ITER + "filter":
             xs = self.eval(args[0], params)
             return [x for x in xs if self.call(args[1], [x], params)]
